@@ -320,8 +320,35 @@ func buildReference(sc scenario, dir string) (r *refRun, err error) {
 	}
 	for i := range r.entries {
 		r.entries[i].Label = classify(&r.entries[i])
+		if r.entries[i].Store == "wal" {
+			// what did this flush make durable?
+			lo, hi := r.entries[i].WalPre, r.endWal
+			if i+1 < len(r.entries) {
+				hi = r.entries[i+1].WalPre
+			}
+			if walHasEndHeight(r.walFull, lo, hi, targetH) {
+				r.entries[i].Label = "wal_end"
+			}
+		}
 	}
 	return r, nil
+}
+
+// walHasEndHeight decodes the WAL bytes [lo,hi) and looks for the end-of-height marker.
+func walHasEndHeight(wal []byte, lo, hi int64, h uint64) bool {
+	if lo < 0 || hi > int64(len(wal)) || lo >= hi {
+		return false
+	}
+	dec := cs.NewWALDecoder(bytes.NewReader(wal[lo:hi]))
+	for {
+		m, err := dec.Decode()
+		if err != nil || m == nil {
+			return false
+		}
+		if e, ok := m.Msg.(cs.EndHeightMessage); ok && e.Height == h {
+			return true
+		}
+	}
 }
 
 // ---- journal entries -> abstract writes of the specification ----------------------------
@@ -434,11 +461,11 @@ func (r *refRun) abstractLabels(pick []int, undo []byte) []string {
 			totalState++
 		}
 	}
-	firstDB := len(r.entries)
+	// the last WAL flush that is not the end-of-height marker carries the node's own precommit
+	lastMsg := -1
 	for i, e := range r.entries {
-		if e.Store != "wal" {
-			firstDB = i
-			break
+		if e.Label == "wal" {
+			lastMsg = i
 		}
 	}
 	fileStep := func(before, after []byte) {
@@ -457,12 +484,8 @@ func (r *refRun) abstractLabels(pick []int, undo []byte) []string {
 		prevUndo = e.UndoPre
 		switch {
 		case e.Label == "wal":
-			if i < firstDB {
-				if i == firstDB-1 {
-					out = append(out, "propose") // the precommit is durable: the decision is in the WAL
-				}
-			} else {
-				out = append(out, "wal_end")
+			if i == lastMsg {
+				out = append(out, "propose") // the precommit is durable: the decision is in the WAL
 			}
 		case e.Label == "state_batch":
 			nState++
@@ -499,12 +522,8 @@ func (r *refRun) images() []image {
 		return r.endWal
 	}
 	endIdx := -1
-	firstDB := n
 	for i, e := range r.entries {
-		if e.Store != "wal" && firstDB == n {
-			firstDB = i
-		}
-		if e.Label == "wal" && i > firstDB {
+		if e.Label == "wal_end" {
 			endIdx = i
 		}
 	}
@@ -612,6 +631,7 @@ type finding struct {
 	Key    string                 `json:"key"`
 	Desc   string                 `json:"desc"`
 	Record map[string]interface{} `json:"record"`
+	Rank   int                    `json:"rank"` // 0 = single crash with its end-to-end consequence, 1 = single crash, 2 = crash during recovery
 }
 
 func sameState(a, b *observation) bool {
@@ -710,26 +730,26 @@ type crashJob struct {
 	Scenario scenario `json:"scenario"`
 	Edges    string   `json:"edges"` // file with the exported model graph ("" = no model comparison)
 	Dir      string   `json:"dir"`
-	Second   int      `json:"second"` // every Second-th image also gets second-level crashes during recovery (0 = none)
+	Second   int      `json:"second"`  // every Second-th image also gets second-level crashes during recovery (0 = none)
 	Corrupt  bool     `json:"corrupt"` // negative control: damage one expected value of the reference
 }
 
 type crashResult struct {
-	Scenario   string          `json:"scenario"`
-	Entries    int             `json:"entries"`
-	Images     int             `json:"images"`
-	Distinct   int             `json:"distinct"`
-	Restarts   int             `json:"restarts"`
-	Second     int             `json:"second_level"`
-	Evals      int             `json:"evals"`
-	Findings   []finding       `json:"findings"`
-	Drift      []string        `json:"drift"`
-	ModelSteps int             `json:"model_steps"`
-	ModelCmp   int             `json:"model_compared"`
-	Journal    []string        `json:"journal"`
-	Sample     interface{}     `json:"sample"`
-	ByOutcome  map[string]int  `json:"by_outcome"`
-	Err        string          `json:"err"`
+	Scenario   string         `json:"scenario"`
+	Entries    int            `json:"entries"`
+	Images     int            `json:"images"`
+	Distinct   int            `json:"distinct"`
+	Restarts   int            `json:"restarts"`
+	Second     int            `json:"second_level"`
+	Evals      int            `json:"evals"`
+	Findings   []finding      `json:"findings"`
+	Drift      []string       `json:"drift"`
+	ModelSteps int            `json:"model_steps"`
+	ModelCmp   int            `json:"model_compared"`
+	Journal    []string       `json:"journal"`
+	Sample     interface{}    `json:"sample"`
+	ByOutcome  map[string]int `json:"by_outcome"`
+	Err        string         `json:"err"`
 }
 
 func imageKey(r *refRun, im image) string {
@@ -800,7 +820,8 @@ func (r *refRun) afterRecovery(n *node, o *observation) (fs []finding) {
 	}
 	var dsErr error
 	triedDS := false
-	if r.coin != nil && n.app.Height() >= targetH {
+	// (only where the chain of the restarted node holds the block that spent the coin)
+	if b := n.env.BS.LoadBlock(targetH); r.coin != nil && b != nil && b.Hash().Hex() == r.after.HeadHash {
 		fee := appx.Fee(n.env.SpendFeeGas(appx.LKC(100)))
 		sp, _, err := appx.Spend(r.coin, appx.LKC(100), &a5.Addr, new(big.Int).Sub(appx.LKC(100), fee), nil, nil)
 		if err == nil {
@@ -829,7 +850,7 @@ func (r *refRun) afterRecovery(n *node, o *observation) (fs []finding) {
 	if triedDS {
 		if paid := st.GetBalance(a5.Addr); paid.Sign() > 0 {
 			fs = append(fs, finding{Key: "crash/utxo-store-behind-block-store",
-				Desc: fmt.Sprintf("DOUBLE SPEND: the coin spent in block %d was spent again after the restart: mempool answer %v, block %d paid %v to the second recipient", targetH, dsErr, target, paid),
+				Desc:   fmt.Sprintf("DOUBLE SPEND: the coin spent in block %d was spent again after the restart: mempool answer %v, block %d paid %v to the second recipient", targetH, dsErr, target, paid),
 				Record: map[string]interface{}{"observed": o, "double_spend": map[string]interface{}{"mempool_error": fmt.Sprint(dsErr), "second_recipient": a5.Addr.Hex(), "paid": paid.String(), "in_block": target}}})
 		}
 	}
@@ -870,6 +891,7 @@ func runCrashJob(job crashJob) (res crashResult) {
 	imgs := r.images()
 	res.Images = len(imgs)
 	seen := map[string]bool{}
+	ctlDone := false
 	findings := map[string]finding{}
 	note := func(f finding, im image) {
 		f.Record["scenario"] = job.Scenario
@@ -877,16 +899,24 @@ func runCrashJob(job crashJob) (res crashResult) {
 		f.Record["writes_done"] = im.Labels
 		f.Record["reference_before"] = r.before
 		f.Record["reference_after"] = r.after
+		f.Rank = 1
+		if strings.Contains(im.Desc, "second crash") {
+			f.Rank = 2
+		} else if _, ok := f.Record["double_spend"]; ok {
+			f.Rank = 0
+		}
 		if old, ok := findings[f.Key]; ok {
-			// keep the first record, but let the end-to-end consequence join it
-			if ds, ok := f.Record["double_spend"]; ok {
-				if _, had := old.Record["double_spend"]; !had {
-					old.Record["double_spend"] = ds
-					old.Desc += " — " + f.Desc
-					findings[f.Key] = old
-				}
+			// the simplest reproduction wins; the end-to-end consequence joins the observation
+			if ds, ok := f.Record["double_spend"]; ok && old.Rank == 1 {
+				old.Record["double_spend"] = ds
+				old.Desc += " — " + f.Desc
+				old.Rank = 0
+				findings[f.Key] = old
+				return
 			}
-			return
+			if f.Rank >= old.Rank {
+				return
+			}
 		}
 		findings[f.Key] = f
 	}
@@ -903,11 +933,9 @@ func runCrashJob(job crashJob) (res crashResult) {
 				pred = p
 			}
 		}
-		if seen[k] && pred == nil {
-			continue
-		}
 		if seen[k] {
-			// an identical image was restarted already; only the model position differs
+			// an image with identical store contents was restarted already (the write that
+			// separates them cannot change what a reader sees); the model was still consulted
 			continue
 		}
 		seen[k] = true
@@ -945,6 +973,16 @@ func runCrashJob(job crashJob) (res crashResult) {
 				res.ModelCmp++
 				if d := pred.compare(&o, r); d != "" {
 					res.Drift = append(res.Drift, fmt.Sprintf("%s %s: %s", job.Scenario.Name, im.Desc, d))
+				}
+				if !ctlDone {
+					// negative control of the model comparison: an altered prediction must be noticed
+					ctlDone = true
+					bad := *pred
+					bad.Txix, bad.StH = !bad.Txix, bad.StH+1
+					if bad.compare(&o, r) == "" {
+						res.Err = "vacuous binding: an altered prediction of the specification compares equal to the restarted node"
+						return
+					}
 				}
 			}
 			if res.Sample == nil && len(im.Pick) > 8 {
@@ -1011,12 +1049,22 @@ func (r *refRun) secondLevel(im image, dbs1 map[string]*jdb, j2 *journal, n1 *no
 		count++
 		im2 := im
 		im2.Desc = fmt.Sprintf("%s, then a second crash after %d/%d writes of the recovery", im.Desc, k, len(entries))
+		im2.Labels = append(append([]string{}, im.Labels...), "crash", "restart")
+		for i := 0; i < k; i++ {
+			if l := classify(&entries[i]); l != "" {
+				im2.Labels = append(im2.Labels, l)
+			}
+		}
 		if err != nil {
 			note(finding{Key: "crash/node-does-not-restart", Desc: fmt.Sprintf("%s, %s: %v", r.sc.Name, im2.Desc, err), Record: map[string]interface{}{"error": err.Error()}}, im2)
 		} else {
 			o := observe(n, r.tr)
 			res.Evals++
-			for _, f := range r.judge(&o, im.Acked) {
+			acked := im.Acked
+			for i := 0; i < k; i++ {
+				acked = acked || entries[i].Store == "wal" // the recovery's only WAL flush is the end-of-height marker
+			}
+			for _, f := range r.judge(&o, acked) {
 				note(f, im2)
 			}
 		}
